@@ -63,7 +63,7 @@ func c25New(c sysCase) (in *c25Inst) {
 			in.m = nil
 		}
 	}()
-	in.m = machine.New(rom, &in.ser, false)
+	in.m = machine.NewCfg(rom, &in.ser, false, c.DebugLCD)
 	return
 }
 
@@ -311,7 +311,7 @@ func c25RunTogether(c c25Together) []sysTrace {
 	gbs := make([]*sysGB, n)
 	for _, i := range c.Order {
 		rom, _ := c.Cases[i].rom()
-		g, gerr := sysNewGB(rom, false, c.Cases[i].Audio, nil)
+		g, gerr := sysNewGBCfg(rom, false, c.Cases[i].Audio, nil, c.Cases[i].DebugLCD)
 		if gerr != nil {
 			return nil
 		}
@@ -399,8 +399,41 @@ func c25GenInst(rt *rapid.T, roms []string) sysCase {
 			s.Head[v] = 0xd9
 		}
 		cas.Image = &s
+		if rapid.IntRange(0, 3).Draw(rt, "scene") == 0 {
+			s.Program = c25SceneProgram(rt)
+		}
 	}
+	// the LCD debug option belongs to the instance configured with it and to no other
+	cas.DebugLCD = rapid.IntRange(0, 3).Draw(rt, "debug-lcd") == 0
 	return cas
+}
+
+// c25SceneProgram: a program that puts objects and the window on the screen (tile data, four OAM entries,
+// palettes, window position, LCDC with objects and window enabled) and then idles - the picture such an instance
+// produces exercises every colour path of the renderer.
+func c25SceneProgram(rt *rapid.T) []byte {
+	b := rapid.Byte()
+	p := []byte{0x3e, 0x00, 0xe0, 0x40} // LCD off
+	// tiles 0-3: 64 bytes of drawn data
+	p = append(p, 0x21, 0x00, 0x80) // LD HL,8000
+	for _, v := range rapid.SliceOfN(b, 8, 8).Draw(rt, "tile-bytes") {
+		for k := 0; k < 8; k++ {
+			p = append(p, 0x3e, v+uint8(37*k)|1, 0x22) // LD A,v ; LD (HL+),A
+		}
+	}
+	p = append(p, 0x21, 0x00, 0xfe) // LD HL,FE00
+	for i := 0; i < 4; i++ {
+		y := uint8(rapid.IntRange(8, 150).Draw(rt, "oy"))
+		x := uint8(rapid.IntRange(1, 166).Draw(rt, "ox"))
+		for _, v := range []uint8{y, x, uint8(rapid.IntRange(0, 3).Draw(rt, "otile")), b.Draw(rt, "oattr") & 0xf0} {
+			p = append(p, 0x3e, v, 0x22)
+		}
+	}
+	for _, w := range [][2]uint8{{0x47, b.Draw(rt, "bgp")}, {0x48, b.Draw(rt, "obp0")}, {0x49, b.Draw(rt, "obp1")}, {0x42, b.Draw(rt, "scy")}, {0x43, b.Draw(rt, "scx")},
+		{0x4a, uint8(rapid.IntRange(0, 143).Draw(rt, "wy"))}, {0x4b, uint8(rapid.IntRange(0, 166).Draw(rt, "wx"))}, {0x40, 0x83 | b.Draw(rt, "lcdc")&0x7c | 0x20}} {
+		p = append(p, 0x3e, w[1], 0xe0, w[0])
+	}
+	return append(p, 0x18, 0xfe) // JR -2
 }
 
 func c25GenOrder(rt *rapid.T, n int) []int {
